@@ -48,6 +48,7 @@ def run(ctx):
     rule_tab_container(ctx)
     rule_tab_bar(ctx)
     rule_tab_unplayable(ctx)
+    rule_tab_track_lines(ctx)
     rule_tab_edges(ctx)
     rule_tab_composition(ctx)
     ctx.floor("R-C20-1", 6)
@@ -807,3 +808,43 @@ def rule_tab_unplayable(ctx):
         ok = bool(paths) and all(p.kind == "raise" and p.value in ("FingerError", "RangeError") for p in paths)
         ctx.check(ok, R, "unplayable[%s]" % label, f.where(), "tablature.%s(<an entry with notes and no fingering on this tuning>)" % fname,
                   "gives %s, expected the fingering / range error" % [(p.kind, short(repr(p.value), 60)) for p in paths])
+
+
+def rule_tab_track_lines(ctx):
+    """from_Track glues the bars of a system line by line: what from_Bar drew on the line of a string stays on the line
+    of that string, in the order of the bars (from_Bar is a stub whose lines say which bar and which string they are)."""
+    R = "R-C20-T"
+    repo = ctx.repo
+    mod = repo.mod(TB)
+    f = mod.func("from_Track")
+    ctx.touch(f)
+    trci = repo.mod(TR).cls("Track")
+    for nbars, width in ((2, 80), (3, 120), (4, 160), (4, 80), (5, 120)):
+        def from_bar(it, args, kwargs, node):
+            k = int(args[0].tag[3:])
+            return ["    1   2   3   4   ", "H||-b%dH-------|" % k, "M||-b%dM-------|" % k, "L||-b%dL-------|" % k]
+
+        def go(it, nbars=nbars, width=width):
+            bars = [Token("bar%d" % j) for j in range(nbars)]
+            t = AObj(trci, {"bars": bars, "instrument": None, "tuning": Token("tuning"), "name": "t"}, name="track")
+            return it.call_function(f, [t, width], {})
+        try:
+            paths = explore(lambda ch: Interp(repo, ch, summaries={TB + ".from_Bar": from_bar}, max_depth=30), go)
+        except CannotDecide as e:
+            raise AnalysisError("tablature.from_Track(<%d bars>, %d): %s" % (nbars, width, e))
+        ok, why = len(paths) == 1 and paths[0].kind == "return" and isinstance(paths[0].value, str), "outcome %s" % [(p.kind, short(repr(p.value), 80)) for p in paths][:2]
+        if ok:
+            import re as _re
+            seen = {"H": [], "M": [], "L": []}
+            for line in paths[0].value.split("\n"):
+                marks = _re.findall(r"b(\d+)([HML])", line)
+                if not marks:
+                    continue
+                strings_ = {m_[1] for m_ in marks}
+                if len(strings_) != 1 or not line.startswith(marks[0][1] + "||"):
+                    ok, why = False, "the line %r mixes what from_Bar drew for different strings" % line
+                    break
+                seen[marks[0][1]] += [int(m_[0]) for m_ in marks]
+            if ok and any(v != list(range(nbars)) for v in seen.values()):
+                ok, why = False, "the string lines hold the bars %s, expected every bar once, in order, on each" % seen
+        ctx.check(ok, R, "from_Track[%d bars,width %d]" % (nbars, width), f.where(), "tablature.from_Track(<%d bars>, %d)" % (nbars, width), why)
